@@ -369,6 +369,16 @@ func extensionErrors(r *R, ue *ssa.Function, app ssa.Instruction) {
 	}
 }
 
+// litLike: some literal has the given prefix and suffix.
+func litLike(lits []string, pre, suf string) bool {
+	for _, l := range lits {
+		if strings.HasPrefix(l, pre) && strings.HasSuffix(l, suf) {
+			return true
+		}
+	}
+	return false
+}
+
 // relHolds: the literal list establishes `a op b`, in any of the spellings a path alternative may carry it
 // (operands either way round, stated positively or as the negation of the complementary test).
 func relHolds(lits []string, a, op, b string) bool {
@@ -743,6 +753,35 @@ func c02r6(r *R) {
 			gs := c.guardStrs(iff.Block())
 			o.AtI(i).Check(hasGuard(gs, "-ja4.isGREASEUint16("+ver+")"), "a GREASE supported_versions entry can become the TLS version; guards %v", gs)
 			o.Check(hasGuard(gs, "+(0 == p1.TLSVersMax)"), "supported_versions is consulted although the spec carries a fixed version")
+			// the entry becomes the running maximum on the edge on which it is the larger one, and only there
+			onTrue, onFalse := false, false
+			eachInstr(tv, func(j ssa.Instruction) {
+				phi, ok := j.(*ssa.Phi)
+				if !ok {
+					return
+				}
+				for k, ed := range phi.Edges {
+					if k >= len(phi.Block().Preds) || c.Expr(ed) != ver {
+						continue
+					}
+					pb := phi.Block().Preds[k]
+					if t := iff.Block().Succs[0]; t == pb || t.Dominates(pb) {
+						onTrue = true
+					}
+					if f := iff.Block().Succs[1]; (f == pb || f.Dominates(pb)) && f != phi.Block() {
+						onFalse = true
+					}
+					if pb == iff.Block() {
+						// the If's own block is the predecessor: which edge it is decides
+						if phi.Block() == iff.Block().Succs[0] {
+							onTrue = true
+						} else {
+							onFalse = true
+						}
+					}
+				}
+			})
+			o.Check(onTrue && !onFalse, "the supported_versions entry replaces the running maximum on the wrong edge of `v > vers` (taken when larger: %v, taken when not larger: %v)", onTrue, onFalse)
 		}
 	})
 	o.Check(found, "no `v > vers` maximum search over supported_versions (the highest version must win)")
@@ -816,16 +855,29 @@ func c02r7(r *R) {
 		// "00" when there is no ALPN value, otherwise the shortened first protocol (one store per case, or one store of the chosen value)
 		for _, vc := range c.valueCases(st.Val, st.Block()) {
 			gs, v := vc.Guards, vc.E
+			if os.Getenv("FPCHECK_DEBUG_C02") != "" {
+				println("C02 alpn case:", v, "||", strings.Join(gs, " ; "))
+			}
 			if v == `"00"` {
 				saw00 = true
 				o2.Check(hasGuardContaining(gs, "+", `("" == phi(""|`+first), "\"00\" is stored under %v, want `no ALPN value`", gs)
 			} else if v == `"99"` {
 				sawVal = true
+				o2.Check(litLike(gs, "+(127 < ", "[0])"), "\"99\" is stored under %v, want only when the first character is not ASCII", gs)
 			} else if v == `""` && (hasGuardContaining(c.guardStrs(st.Block()), "+", `("" != phi(""|`+first) || hasGuardContaining(gs, "+", `("" != phi(""|`+first)) {
 				// the initial empty value cannot reach a store that is guarded by `alpn != ""`
 			} else {
 				sawVal = true
 				o2.Check(strings.Contains(v, "#0.AlpnProtocols[0]"), "FirstALPN is %s", v)
+				// which form under which length: first+last only for more than two characters, the protocol itself otherwise;
+				// both only for an ASCII first character
+				shortened := strings.Contains(v, ") - 1)])")
+				o2.Check(litLike(gs, "+(", "[0] <= 127)"), "an ALPN value is stored without the first character having been found ASCII (conditions %v)", gs)
+				if shortened {
+					o2.Check(litLike(gs, "+(2 < builtin.len(", "))"), "first+last character is stored under %v, want for protocols longer than two characters", gs)
+				} else {
+					o2.Check(litLike(gs, "+(builtin.len(", ") <= 2)"), "the whole protocol is stored under %v, want for protocols of at most two characters", gs)
+				}
 			}
 		}
 		whole += " | " + c.Expr(st.Val)
